@@ -149,6 +149,19 @@ type txParams struct {
 	key  *ecdsa.PrivateKey
 }
 
+// cU64: a scalar with its boundary values (present-but-zero fields are where optional-field codecs go wrong)
+func cU64(rc *h.Rng) uint64 {
+	switch rc.Intn(6) {
+	case 0:
+		return 0
+	case 1:
+		return 1
+	case 2:
+		return ^uint64(0)
+	}
+	return rc.U64() >> uint(rc.Intn(64))
+}
+
 func genTxParams(rc *h.Rng) *txParams {
 	p := &txParams{kind: rc.Intn(3), loc: common.Location{byte(rc.Intn(3)), byte(rc.Intn(3))}}
 	p.key, _ = crypto.ToECDSA(crypto.Keccak256(rc.Bytes(16)))
@@ -158,7 +171,7 @@ func genTxParams(rc *h.Rng) *txParams {
 		p.loc = common.Location{from.Bytes()[0] >> 4, from.Bytes()[0] & 0x0f}
 	}
 	p.chainID, p.price, p.value = big.NewInt(int64(1+rc.Intn(20000))), cBig(rc), cBig(rc)
-	p.nonce, p.gas = rc.U64()>>uint(rc.Intn(64)), rc.U64()>>uint(rc.Intn(64))
+	p.nonce, p.gas = cU64(rc), cU64(rc)
 	if rc.Chance(85) || p.kind == 1 {
 		a := cAddr(rc, p.loc)
 		p.to = &a
@@ -169,8 +182,8 @@ func genTxParams(rc *h.Rng) *txParams {
 	p.al = cAccessList(rc, p.loc)
 	p.v, p.r, p.s = big.NewInt(int64(rc.Intn(2))), new(big.Int).SetBytes(rc.Bytes(32)), new(big.Int).SetBytes(rc.Bytes(32))
 	p.work = rc.Chance(30)
-	p.ph, p.mh, p.wn = cHash(rc), cHash(rc), rc.U64()
-	p.oth, p.idx, p.sender, p.etxType = cHash(rc), uint16(rc.U64()), cAddr(rc, p.loc), uint64(rc.Intn(6))
+	p.ph, p.mh, p.wn = cHash(rc), cHash(rc), cU64(rc)
+	p.oth, p.idx, p.sender, p.etxType = cHash(rc), uint16(cU64(rc)), cAddr(rc, p.loc), uint64(rc.Intn(6))
 	for i := 1 + rc.Intn(3); i > 0; i-- {
 		k, _ := btcec.NewPrivateKey()
 		p.ins = append(p.ins, types.TxIn{PreviousOutPoint: types.OutPoint{TxHash: cHash(rc), Index: uint16(rc.U64())}, PubKey: k.PubKey().SerializeUncompressed()})
@@ -250,8 +263,15 @@ func txFingerprint(tx *types.Transaction) string {
 		}
 	}
 	if tx.Type() != types.ExternalTxType {
+		// each optional field on its own: present-with-a-zero-value is not the same as absent
 		if tx.ParentHash() != nil {
-			fmt.Fprintf(&sb, " ph=%x mh=%x wn=%d", *tx.ParentHash(), *tx.MixHash(), tx.WorkNonce().Uint64())
+			fmt.Fprintf(&sb, " ph=%x", *tx.ParentHash())
+		}
+		if tx.MixHash() != nil {
+			fmt.Fprintf(&sb, " mh=%x", *tx.MixHash())
+		}
+		if tx.WorkNonce() != nil {
+			fmt.Fprintf(&sb, " wn=%d", tx.WorkNonce().Uint64())
 		}
 	}
 	return sb.String()
